@@ -7,7 +7,7 @@ import numpy as np
 
 from .. import gen, hooks, knncase
 from ..base import Result
-from ..snap import is_library_domain_error
+from ..snap import is_library_domain_error, safe_call
 
 ID = "C16"
 RULE = ("KNNSupervisedOPF and UnsupervisedOPF fits with max_k up to n-1 on Gaussian / lattice / duplicate / blob data; KNN validation sets with correct, "
@@ -87,7 +87,16 @@ def check(case):
     ]
     if kind == "knn":
         targets.append((cls, "_clustering", None, ev("cluster", lambda a, k, r: (bool(a[1]) if len(a) > 1 else bool(k.get("force_prototype", False)),))))
-        targets.append((g, "opf_accuracy", None, ev("crit", lambda a, k, r: (float(r),))))
+        yv_ref = [int(v) for v in YV]
+
+        def is_validation_call(a, k):
+            # only accuracy evaluations over the VALIDATION labels are candidate scores; any other call (e.g. a training accuracy for a log line) is not
+            lab = a[0] if a else k.get("labels")
+            try:
+                return [int(v) for v in np.asarray(lab).ravel()] == yv_ref
+            except Exception:  # noqa: BLE001
+                return False
+        targets.append((g, "opf_accuracy", None, ev("crit", lambda a, k, r: (float(r), is_validation_call(a, k)))))
     else:
         targets.append((cls, "_clustering", None, ev("cluster", lambda a, k, r: (int(a[1] if len(a) > 1 else k.get("n_neighbours")),))))
         targets.append((cls, "_normalized_cut", None, ev("crit", lambda a, k, r: (int(a[1] if len(a) > 1 else k.get("n_neighbours")), float(r)))))
@@ -95,6 +104,11 @@ def check(case):
         # a prior fit on the same object (case["refit"]) is history, not part of the judged event log
         m, call = knncase.fit_model(case, before_final=rec.events.clear)
     log = rec.of("log")
+    if kind == "knn":
+        n_other = sum(1 for e in log if e[0] == "crit" and not e[2])
+        if n_other:
+            res.see("accuracy_calls_not_on_validation_labels", n_other)
+        log = [e for e in log if not (e[0] == "crit" and not e[2])]
     crit = [e for e in log if e[0] == "crit"]
     if not call.ok:
         if is_library_domain_error(call.exc):
@@ -138,10 +152,15 @@ def check(case):
         if best != want:
             res.violate("selection", "C16/knn/not-smallest-argmax", f"best_k={best} but accuracies by k are {accs}: smallest k with the highest accuracy is {want}")
             return res
+        # "its final model is built with that k": judged on the STATE the fit leaves (densities == those of a fresh graph built with k = best_k),
+        # not on the sequence of internal calls, which an implementation is free to organise otherwise
+        bad = _final_state_mismatch(m, case, best)
+        if bad:
+            res.violate("selection", "C16/knn/final-model-not-best-k", f"best_k={best} but the final model's densities are not those of a graph built with k={best}: {bad}")
+            return res
         tail = [e for e in log if e[0] in ("arcs", "pdf", "cluster")][-3:]
         if tail != [("arcs", best), ("pdf", best), ("cluster", True)]:
-            res.violate("selection", "C16/knn/final-model-not-best-k", f"final build events {tail}; expected arcs({best}), pdf({best}), clustering(force_prototype=True)")
-            return res
+            res.see("final_build_call_pattern_differs")
         if all(a == 0 for a in accs):
             res.see("knn_all_accuracies_zero")
         if len(set(accs)) < len(accs):
@@ -179,10 +198,13 @@ def check(case):
         if best != want:
             res.violate("selection", "C16/unsup/not-smallest-argmin", f"best_k={best} but cuts by k are {cuts}: smallest k with the lowest cut is {want}")
             return res
+        bad = _final_state_mismatch(m, case, best)
+        if bad:
+            res.violate("selection", "C16/unsup/final-model-not-best-k", f"best_k={best} but the final model's densities are not those of a graph built with k={best}: {bad}")
+            return res
         tail = [e for e in log if e[0] in ("arcs", "pdf", "cluster")][-3:]
         if tail != [("arcs", best), ("pdf", best), ("cluster", best)]:
-            res.violate("selection", "C16/unsup/final-model-not-best-k", f"final build events {tail}; expected arcs/pdf/clustering with k={best}")
-            return res
+            res.see("final_build_call_pattern_differs")
         for i, nd in enumerate(m.subgraph.nodes):
             if len(nd.adjacency) != min(best, n - 1) + nd.n_plateaus:
                 res.violate("selection", "C16/unsup/final-model-not-best-k", f"sample {i}: arc list has {len(nd.adjacency)} entries, expected best_k + n_plateaus = {best}+{nd.n_plateaus}")
@@ -194,6 +216,52 @@ def check(case):
         res.nontrivial = len(ks) >= 3 and len(set(vals)) >= 2 and want != min(ks)
     res.cell(kind, case["gclass"], "k" + str(min(case["max_k"], 8)))
     return res
+
+
+def _final_state_mismatch(m, case, best):
+    """The fitted model's densities against the density estimate with k = best neighbours, recomputed here from the pairwise weights with
+    the model's OWN stored constant (the bound it derives from is whatever the implementation accumulated; C12 owns that)."""
+    import opfython.utils.constants as c
+    from ..snap import weight_matrix
+
+    sg = m.subgraph
+    nodes = sg.nodes
+    n = len(nodes)
+    try:
+        W = weight_matrix(m)
+    except Exception:  # noqa: BLE001 - the metric raised on these rows: nothing to compare
+        return None
+    const = float(sg.constant)
+    if not np.all(np.isfinite(W)) or not (const > 0) or not math.isfinite(const) or best > n - 1:
+        return None
+    pdf = []
+    for i in range(n):
+        ds = sorted(float(W[i, j]) for j in range(n) if j != i)[:best]
+        pdf.append(math.fsum(math.exp(-d / const) for d in ds) / (best + 1))
+    lo, hi = min(pdf), max(pdf)
+    dens = [float(nd.density) for nd in nodes]
+    if not all(math.isfinite(v) for v in dens):
+        return None
+    if not hi - lo > 1e-12 * hi:
+        return None          # (nearly) all equal: the affine map is ill-conditioned, C12 judges that regime
+    amp = (c.MAX_DENSITY - 1) * hi / (hi - lo)
+    tol = 1e-12 * amp + 1e-9
+    for i in range(n):
+        ref = (c.MAX_DENSITY - 1) * (pdf[i] - lo) / (hi - lo) + 1
+        if abs(dens[i] - ref) > tol * max(1.0, abs(ref)):
+            return f"sample {i}: density {dens[i]!r}, estimate with {best} neighbours {ref!r} (tol {tol:.3g})"
+    # the forest itself is grown over the k = best graph: every predecessor link is an arc of that graph (the child is among the parent's
+    # `best` nearest, ties at the k-th distance admitted) or of its plateau symmetrisation (equal densities, parent among the child's nearest)
+    kth = [sorted(float(W[i, j]) for j in range(n) if j != i)[best - 1] for i in range(n)]
+    for i in range(n):
+        p_ = int(nodes[i].pred)
+        if p_ == -1 or p_ == i:
+            continue
+        if W[p_, i] <= kth[p_] or (dens[i] == dens[p_] and W[i, p_] <= kth[i]):
+            continue
+        return (f"sample {i} hangs below sample {p_} at distance {float(W[p_, i])!r}, but {p_}'s {best} nearest neighbours end at {kth[p_]!r}"
+                f" (densities {dens[i]!r} / {dens[p_]!r})")
+    return None
 
 
 def extra(tier, seed, shard=0, nshards=1):
